@@ -410,6 +410,205 @@ func run(e *core.Env) {
 		}
 		w.cleanupAttempt(att)
 	}
+
+	// ---- a dishonest remote end ----
+	// So far the adversary sat on the wire between two honest routers. Here the remote end
+	// itself is the adversary: an outsider with a valid identity of its own runs the shipped
+	// handshake state machine (so everything it signs verifies), names the victim's universe,
+	// does not know the victim's secret, and is free to choose what it sends: it may copy the
+	// victim's challenge into its own request and put into its response whatever universe
+	// proof it has seen on this connection.
+	nEvil := 1 + tp.Intn(3)
+	outID := ident.Get(ident.Routable, perm[2])
+	for k := 0; k < nEvil; k++ {
+		time.Sleep(time.Second + time.Duration(tp.Intn(3000))*time.Millisecond)
+		v := tp.Intn(2)
+		V := w.S[v]
+		ost := node.BaseStore(outID)
+		ost.Router.Universe = uni[v]
+		ost.Router.UniverseSecret = []string{"", "", "not-the-secret"}[tp.Intn(3)]
+		O := linkpair.NewStack(e, fmt.Sprintf("out%d", k), outID, ost, false)
+		victimDials := tp.Chance(1, 2)
+		copyChallenge := tp.Chance(3, 4)
+		uaMode := tp.Intn(4) // 0,1: reflect the victim's own proof; 2: leave what the honest code put; 3: random bytes
+		pair := w.cn.NewPair("dishonest")
+		vEnd, vDir := pair.B, 1 // the victim reads from vEnd and writes records of direction vDir
+		var dialPanic string
+		if victimDials {
+			vEnd, vDir = pair.A, 0
+			go func() {
+				defer func() {
+					if r := recover(); r != nil {
+						dialPanic = fmt.Sprint(r)
+					}
+				}()
+				_, _ = V.Node.Peering.VerifSetupLink(pair.A, O.URL, true)
+			}()
+		} else if !V.Listener.Offer(pair.B) {
+			e.Infra("listener closed")
+		}
+		simnet.Wait()
+		take := func() []byte {
+			simnet.Wait()
+			for _, r := range w.cn.Pending() {
+				if r.Conn == pair && r.Dir == vDir && !r.EOF && len(r.Data) > 2 {
+					w.cn.Remove(r)
+					return r.Data[2:]
+				}
+			}
+			return nil
+		}
+		parse := func(d []byte) frame.Frame {
+			if d == nil {
+				return nil
+			}
+			b := O.Node.Inst.Builder
+			ps := b.GetPooledSlice(len(d))
+			copy(ps, d)
+			f, err := b.ParseFrame(ps[:len(d)], ps, 0)
+			if err != nil {
+				return nil
+			}
+			return f
+		}
+		field := func(f frame.Frame, key string) []byte {
+			if f == nil {
+				return nil
+			}
+			var mm map[string]any
+			if cbor.Unmarshal(f.MessageData(), &mm) != nil {
+				return nil
+			}
+			b, _ := mm[key].([]byte)
+			return b
+		}
+		send := func(f frame.Frame) {
+			d, err := f.FrameDataWithMargins(0, 0)
+			if err != nil {
+				e.Infra("frame data: %v", err)
+			}
+			rec := make([]byte, 2+len(d))
+			m.PutUint16(rec[:2], uint16(len(rec)))
+			copy(rec[2:], d)
+			w.cn.DeliverBytes(vEnd, rec, false)
+		}
+		steps := "victim's request not seen"
+		func() {
+			vReq := parse(take())
+			if vReq == nil {
+				return
+			}
+			hs, honestReq, err := O.Node.Peering.VerifNewHandshake(!victimDials)
+			if err != nil {
+				e.Infra("handshake state: %v", err)
+			}
+			honestReq.ReturnToPool()
+			challenge := tp.Bytes(32)
+			if copyChallenge {
+				if c := field(vReq, "c"); len(c) > 0 {
+					challenge = c
+				}
+			}
+			hs.SetChallenge(challenge)
+			body, _ := cbor.Marshal(&forgedRequest{RouterVersion: "sim", Universe: uni[v], Address: outID.PublicAddress, Challenge: challenge, LinkVersion: 1})
+			req, err := O.Node.Inst.Builder.NewFrameV1(outID.IP, m.RouterAddress, frame.RouterPing, nil, body, nil)
+			if err != nil {
+				e.Infra("request: %v", err)
+			}
+			req.SetTTL(0)
+			req.SetSequenceTime(time.Now().Round(time.Millisecond).Add(-time.Millisecond))
+			if err := req.SignRaw(outID.PrivateKey); err != nil {
+				e.Infra("sign: %v", err)
+			}
+			req.SetTTL(1)
+			send(req)
+			steps = "request sent"
+			vResp := parse(take()) // the victim's response to our request: carries its universe proof
+			oResp, err := hs.Handle(vReq)
+			if err != nil || oResp == nil {
+				steps += fmt.Sprintf("; shipped code refuses the victim's request: %v", err)
+				return
+			}
+			// Our response: what the shipped code produced, with the universe proof of our choice.
+			var rm map[string]any
+			if cbor.Unmarshal(oResp.MessageData(), &rm) != nil {
+				return
+			}
+			switch {
+			case uaMode <= 1:
+				if ua := field(vResp, "ua"); len(ua) > 0 {
+					rm["ua"] = ua
+					e.Probe("dishonest_peer_reflects_universe_proof")
+				}
+			case uaMode == 3:
+				rm["ua"] = tp.Bytes(32)
+			}
+			rb, _ := cbor.Marshal(rm)
+			sess := O.Node.State.GetSession(V.Node.IP)
+			if sess == nil {
+				return
+			}
+			resp, err := O.Node.Inst.Builder.NewFrameV1(outID.IP, V.Node.IP, frame.RouterPing, nil, rb, nil)
+			if err != nil {
+				e.Infra("response: %v", err)
+			}
+			if err := resp.Seal(sess); err != nil {
+				e.Infra("seal: %v", err)
+			}
+			send(resp)
+			steps += "; response sent"
+			vAck := parse(take())
+			if vResp == nil {
+				return
+			}
+			oAck, err := hs.Handle(vResp)
+			if err != nil || oAck == nil {
+				steps += fmt.Sprintf("; shipped code refuses the victim's response: %v", err)
+				return
+			}
+			send(oAck)
+			steps += "; ack sent"
+			if vAck != nil {
+				if _, err := hs.Handle(vAck); err == nil {
+					_ = hs.Finalize()
+					steps += "; handshake complete on the dishonest side"
+				}
+			}
+		}()
+		simnet.Wait()
+		e.Fault("dishonest_peer")
+		linked := V.Node.Peering.GetLink(outID.IP) != nil
+		e.Ev("dishonest", uint64(k), uint64(v), b2u(victimDials), b2u(copyChallenge), uint64(uaMode), b2u(linked))
+		if dialPanic != "" {
+			e.Fail("setup-panic:"+core.PanicClass(dialPanic), "link setup panicked with a dishonest remote end")
+		}
+		if len(V.Node.PanicAlerts()) > 0 {
+			e.Fail("worker-panic:dishonest-peer", "%s: worker panicked with a dishonest remote end (%s)", w.desc, steps)
+		}
+		if linked && sec[v] != "" {
+			e.Fail("link-registered-with-peer-that-never-proved-the-universe-secret",
+				"%s: %s (secret %q, dials=%v) registered a link to an outsider that does not know the secret; the outsider copied the victim's challenge=%v, universe proof mode %d (%s)",
+				w.desc, V.Node.Name, sec[v], victimDials, copyChallenge, uaMode, steps)
+		}
+		if linked {
+			e.Probe("dishonest_but_entitled_peer_linked")
+		} else {
+			e.Probe("dishonest_peer_left_no_link")
+		}
+		for _, l := range V.Node.Peering.GetLinks() {
+			l.Close(nil)
+		}
+		_ = pair.A.Close()
+		_ = pair.B.Close()
+		simnet.Wait()
+		for _, r := range w.cn.Pending() {
+			w.cn.Remove(r)
+		}
+		_ = O.Listener.Close()
+		O.Node.Kill()
+		simnet.Wait()
+		V.Drain()
+	}
 }
 
 func victimEnd(a *linkpair.Attempt, victimDir int) *simnet.SimConn {
